@@ -10,6 +10,25 @@ from run import CHECKS  # noqa
 
 BASE = "cd /repo && /venv/bin/python -m pytest -ra -q -p no:cacheprovider --timeout=900 --continue-on-collection-errors"
 
+# flat complete-domain products added to the explorations during the seeded-change campaign (DESIGN section 11)
+ADD = {
+ "C01": "; plus flat exhaustive products, each compared with the same reference: every quirks-mode rule (4 doctype names x 194 public identifiers x 7 system identifiers), 158 element names x 34 structural templates x 6 contexts, every entry of the SVG tag / attribute fix-up tables and of the foreign-attribute table and every foreign scoping element in 10 templates; three hand-derived <template> witnesses (known finding)",
+ "C02": "; words explored from attribute-value seeds are also judged with the suffix that completes the tag",
+ "C03": "; plus 158 element names x 34 templates x 6 contexts, every element name as fragment container x 14 texts, and all byte words <=4 over 16 encoding-declaration fragments x 4 argument sets",
+ "C04": "; plus every ordered pair of 15 interacting attribute names on 5 hosts and the 158-name / foreign-table sweeps (a disagreement is attributed to the recorded minidom colon-name finding only if that eviction rule reproduces the dom result exactly)",
+ "C06": " (now 23 body variants incl. several declarations met by tree construction and prescan guesses taken from RCDATA/script text; the prescan alphabet has a complete-declaration macro letter: 15.2 M prescan inputs)",
+ "C08": "; plus every DOCTYPE public x system identifier <=2 (3) over {a,\",',>,space}, and 158 element names as HTML element and SVG twin with markup-like text and a quoted attribute",
+ "C09": "; URL-valued attributes come from the oracle's own table, style keywords of shorthand declarations are checked against allowed keywords / colours / lengths",
+ "C10": "; plus an attribute theme (doubly escaped references, markup inside allowed attribute values) explored one level deeper; the third option set uses quote_attr_values=spec",
+ "C11": "; plus every code point below U+3100 (thorough: the whole BMP) in two text shapes: SpaceCharacters tokens may only hold the five HTML whitespace characters",
+ "C12": "; (d) all sequences <=2 (3) of 13 module-level factory / convenience calls (getTreeBuilder / getTreeWalker with every keyword form, parse, parseFragment, serialize), each history in its own fresh interpreter",
+ "C13": "; alphabet now 169 tokens (an SVG twin of every name a rule looks for) plus every (omissible tag, neighbour) pair with the neighbour ranging over 158 element names; parse equivalence also over generator theme G6 (p inside ins/del/map/a/noscript/video)",
+ "C15": " (12 head letters; full head depth for 10 representative encodings, depth D-2 for the other 25 labels)",
+ "C16": "; plus 614 conforming documents with every void element with and without trailing solidus",
+ "C17": "; the state key holds every bool/int local of the filter's generator; plus every element name and every BMP code point in 4 text shapes",
+ "C19": "; qname prefixes must be bound to the attribute's namespace; plus every entry of the foreign tables (663 words)",
+}
+
 # id -> (category, technique, text, note, design_ref)
 T = {
  "C01": ("model_checking",
@@ -131,7 +150,7 @@ def main():
                 "engine": "mc",
                 "level_claimed": {"category": cat, "text": text, "design_ref": "DESIGN.md " + ref},
                 "level_note": note,
-                "technique": tech,
+                "technique": tech + ADD.get(pid, ""),
             })
         else:
             na.append({"property_id": pid, "reason": "check not built yet in this session (planned: DESIGN.md section 6/%s); no claim is made" % pid})
